@@ -11,6 +11,7 @@ TB_COMMON = ("Trusted: Lean 4.33 kernel; axioms propext, Classical.choice, Quot.
 SOL = {"name": "sol", "corpus": True, "timeout": 3000}
 HIST = {"name": "hist", "corpus": True}
 HISTUC = {"name": "histuc", "corpus": True}
+RC = {"name": "rc", "corpus": True}
 
 ENGINE_TXT = ("Engine theorems (NR.Props.EngineThms, generic in the cached values, the step function and the exact "
               "checks): a completing propagation pass establishes cache = forward propagation and every check on what "
@@ -52,9 +53,9 @@ PROPS = {
             "technique": "Lean 4 proof (engine invariant, AllOk clause) + Spec oracle on the real code's observations",
             "design_ref": "DESIGN.md §5 C02",
         },
-        "lean_props": ["C02", "EngineThms"],
+        "lean_props": ["C02", "C02W", "EngineThms"],
         "facts": ["CheckFacts"],
-        "streams": [SOL, HIST],
+        "streams": [SOL, HIST, RC],
     },
     "C03": {
         "claim": {
@@ -313,7 +314,7 @@ PROPS = {
         },
         "lean_props": ["C16"],
         "facts": ["FrontFacts"],
-        "streams": [{"name": "crash", "corpus": True, "model": False}, HIST],
+        "streams": [{"name": "crash", "corpus": True, "model": False}, HIST, RC],
         "also": [],
     },
     "C17": {
